@@ -89,9 +89,9 @@ def power_layer_clifford_2009(delta, E_S, E_L, R, nu_S, nu_L, t,
     # roots of delta
     root = contact_point - delta
     pos = root > 0
-    dr12 = np.zeros_like(delta)
+    dr12 = np.zeros_like(delta, dtype=float)
     dr12[pos] = np.sqrt(root[pos])
-    dr32 = np.zeros_like(delta)
+    dr32 = np.zeros_like(delta, dtype=float)
     dr32[pos] = root[pos]**(3/2)
     # constants
     P = 2.25
